@@ -58,6 +58,13 @@ Definition lex_set_extension (p : lexpath) (ext : str) : lexpath :=
   | [] => p
   end.
 
+(* file_name + "." + ext through set_file_name: a path without file name gets a new component *)
+Definition lex_append_ext (p : lexpath) (ext : str) : lexpath :=
+  match rev p with
+  | n :: r => if is_normal n then rev r ++ [n ++ [DOT] ++ ext] else p ++ [[DOT] ++ ext]
+  | [] => [[DOT] ++ ext]
+  end.
+
 (* fs/path/mod.rs:46-62 *)
 Definition is_txtpp_file (p : lexpath) : bool :=
   match lex_extension p with
@@ -79,7 +86,8 @@ Definition remove_txtpp (p : lexpath) : option lexpath :=
     if str_eqb e TXTPP_EXT then
       let p2 := lex_set_extension p1 [] in
       match lex_extension p with
-      | Some self_ext => Some (lex_set_extension p2 self_ext)
+      | Some [] => Some p2
+      | Some self_ext => Some (lex_append_ext p2 self_ext)     (* appended, not set: the stem keeps its own dots *)
       | None => None
       end
     else Some p1
@@ -92,8 +100,10 @@ Definition txtpp_candidates (p : lexpath) : list lexpath :=
   if is_txtpp_file p then [] else
   match lex_extension p with
   | Some ext =>
-    [lex_set_extension p (ext ++ [DOT] ++ TXTPP_EXT);
-     lex_set_extension (lex_set_extension p []) (TXTPP_EXT ++ [DOT] ++ ext)]
+    (* `p.set_extension("")` in the code "restores" the path it has just extended with `.txtpp`,
+       i.e. it strips that `txtpp` again, and then replaces the last extension by `txtpp.ext` *)
+    let c1 := lex_set_extension p (ext ++ [DOT] ++ TXTPP_EXT) in
+    [c1; lex_set_extension (lex_set_extension c1 []) (TXTPP_EXT ++ [DOT] ++ ext)]
   | None => [lex_set_extension p TXTPP_EXT]
   end.
 
